@@ -240,7 +240,7 @@ func Equal(a, b *Tree, listsAsSets bool) bool {
 
 func jsonScalar(s *schema.Node, v string) string {
 	switch s.Type {
-	case "int32", "int64", "uint8", "decimal64", "boolean":
+	case "int32", "int64", "uint8", "decimal64", "decimal64x", "boolean":
 		return v
 	}
 	b, _ := json.Marshal(v)
